@@ -382,7 +382,7 @@ theorem C06_arc_piece_partial (T : Transc F) (L : PlaneLaws T) (dm : DepthMethod
         r.newDistance = @arcDistance F (fieldScalar T) check2d center radius (θ - β) ∧
         |r.newDistance| = |radius - nrm ⟨check2d.x - center.x, check2d.y - center.y⟩|) ∧
       (¬ @arcAccept F (fieldScalar T) (θ - β) (@arcCpa F (fieldScalar T) check2d center radius (θ - β)) θ β →
-        r.newDistance = s.newDistance ∧ r.newAlong = s.newAlong) := by
+        r.newDistance = T.inf ∧ r.newAlong = T.inf) := by
   intro s1 θ β len b radius center nrm r harc hlen hcos
   have hnot : ¬ @LT.lt F (fieldScalar T).toLT (@lerpC F (fieldScalar T) lenCur lenNext fraction)
       (@OfScientific.ofScientific F (@Scalar.instOfScientific F (fieldScalar T)) 1 true 14) := by
@@ -416,19 +416,13 @@ theorem C06_arc_piece_partial (T : Transc F) (L : PlaneLaws T) (dm : DepthMethod
     rw [hnd]
     exact arcDistance_abs T check2d center radius (θ - β)
   · obtain ⟨u1, u2⟩ := q2 hrej
-    have hs1d : s1.newDistance = s.newDistance := by
-      show (@segPre F (fieldScalar T) dm i s).newDistance = _
-      unfold segPre; dsimp only; split <;> rfl
-    have hs1a : s1.newAlong = s.newAlong := by
-      show (@segPre F (fieldScalar T) dm i s).newAlong = _
-      unfold segPre; dsimp only; split <;> rfl
     constructor
     · refine g4.trans ?_
       show (@segGeom F (fieldScalar T) startRadius check2d θ β len s1).newDistance = _
-      rw [hga, u1, hs1d]
+      rw [hga, u1]
     · refine g3.trans ?_
       show (@segGeom F (fieldScalar T) startRadius check2d θ β len s1).newAlong = _
-      rw [hga, u2, hs1a]
+      rw [hga, u2]
 
 /-- **C06** (first full statement for the circular piece; REFUTED in `Properties/C06Arc.lean`, which also proves the corrected statements): when the sector test accepts the point, the stored
 along-value `a` is the arc length from the begin point `b` to the foot of `q` on the circle — i.e. turning `b` about the centre
